@@ -3,11 +3,9 @@
 package main
 
 import (
-	"bytes"
 	"encoding/binary"
 
 	"github.com/ipfs/go-cid"
-	"github.com/rpcpool/yellowstone-faithful/compactindexsized"
 )
 
 func c01CidBytes(i int) []byte {
@@ -33,22 +31,5 @@ func c01Section(cidBytes, data []byte) []byte {
 	return append(out, data...)
 }
 
-// ---- cut: the hash index (property C04) is a recorder: Lookup returns what Insert stored.
 type c01KV struct{ key, value []byte }
-
-var c01Inserted []c01KV
-
-func c01Model_BuilderInsert(b *compactindexsized.Builder, key []byte, value []byte) error {
-	c01Inserted = append(c01Inserted, c01KV{append([]byte{}, key...), append([]byte{}, value...)})
-	return nil
-}
-
-func c01Model_DBLookup(db *compactindexsized.DB, key []byte) ([]byte, error) {
-	for _, kv := range c01Inserted {
-		if len(kv.key) == len(key) && bytes.Equal(kv.key, key) {
-			return append([]byte{}, kv.value...), nil
-		}
-	}
-	return nil, compactindexsized.ErrNotFound
-}
 
